@@ -26,6 +26,7 @@ RULE = ("typed Bool-rooted filters (depth 1..4 quick / 1..6 thorough) over every
         "the referenced columns (NULL, negatives, zero, empty and metacharacter strings), "
         "<= 400 per filter. distinct = distinct filter text; non-trivial = selects at least "
         "one judged row and rejects at least one")
+RULE += (" " + 'Added lanes: machine numbers (Int64 extremes, non-dyadic fractions, integer groups under float arithmetic, comparison value produced by the source grouping); long in-lists (33..1500) under and/or/not; same-field comparison chains; repeated operands; exponent-notation and literal-like strings; fixed-point column; year 1/9999.')
 ASSUMPTIONS = ["reference evaluator vpmon/ref/odata_eval.py; UNSPEC rows (division by zero, "
                "inexact negative div, mod with negatives, out-of-range substring, concat "
                "with NULL, ASCII case-insensitive LIKE differences, non-ASCII case mapping) "
